@@ -65,6 +65,26 @@ def generated_network(rng):
     return {"jd": jd, "edges": edges, "names": names, "source": "generator", "clean": clean, "sizes": sizes}
 
 
+def annotation(row, jd_type):
+    """the joint-degree annotation is a sequence of ints: tuples from the library's generators, lists from hand-built or loaded
+    networks, rows of an integer array from numerical code"""
+    if jd_type == "list":
+        return list(row)
+    if jd_type == "numpy":
+        import numpy as np
+        return np.array(list(row), dtype=np.int64)
+    return tuple(row)
+
+
+def fresh(t):
+    """an equal but separately created object"""
+    if isinstance(t, str) and len(t) >= 2:
+        return (t + "x")[:-1]
+    if isinstance(t, tuple):
+        return tuple(fresh(x) for x in t)
+    return t
+
+
 def build_graph(case):
     import networkx as nx
     from gcmpy.names.network_names import NetworkNames as NN
@@ -73,10 +93,10 @@ def build_graph(case):
     for v, row in sorted(case["jd"], key=lambda t: order.get(t[0], t[0])):
         G.add_node(v)
         # the annotation is a sequence of ints: tuples from the library's generators, lists from hand-built / loaded networks
-        G.nodes[v][NN.JOINT_DEGREE] = list(row) if case.get("jd_type") == "list" else tuple(row)
+        G.nodes[v][NN.JOINT_DEGREE] = annotation(row, case.get("jd_type"))
     for a, b, t in case["edges"]:
         G.add_edge(a, b)
-        G.edges[a, b][NN.TOPOLOGY] = t
+        G.edges[a, b][NN.TOPOLOGY] = fresh(t)      # names are compared by value: every edge carries its own string object
         G.edges[a, b][NN.MOTIF_IDS] = 0
     return G
 
